@@ -358,6 +358,10 @@ with ptabvec (fuel : nat) (t : nat) (lvl : Z) (c : pctx) (i : Z) (s : list cmd)
 (* fuel that always suffices (ParserProofs.v): two rounds per input byte *)
 Definition parser_fuel : nat := S (S (Z.to_nat (2 * blen b))).
 
+(* Entry point modelled: <T>_parse_json_as_root = flatcc_json_parser_table_as_root.  The schema-level <basename>_parse_json is NOT modelled
+   separately: as generated at the pinned tree it opens the buffer itself without the nesting bound and without with_size
+   (fixes/C04-root-parse-json-no-nesting-limit.patch makes it a one-line call of <Root>_parse_json_as_root, i.e. this function);
+   checks/c04.py drives it as root `Root@schema` against the property statement only. *)
 (* flatcc_json_parser_table_as_root: init, max_level, start_buffer(fid, 0, with_size) [level 1], the table parser,
    end_buffer.  [idw] = the identifier as a little-endian word (0: none).  Result: the whole create-level script,
    the value tree of the root and its depth bound; position = ctx->end_loc. *)
